@@ -4,6 +4,17 @@ correspondence suites (name, quick cases, thorough cases), fact obligations."""
 STD_TRUST = []
 
 PROPS = {
+    "C09": {
+        "theorems": ["C09_mergeSorter_local", "C09_less_spec", "C09_less_no_panic", "C09_less_strict_weak", "C09_range",
+                     "C09_range_filtered", "C09_unique_with_id", "C09_unique_with_id_range", "C09_range_eq_spec",
+                     "C09_partition", "C09_partition_all", "C09_known_uint64_counterexample", "C09_statement_false"],
+        "facts": ["Facts.lessCases: the case list of sortedResources.Less's type switch, regenerated; RulesHaveCases is stated against it"],
+        "suites": [("range", 2000, 60000)],
+        "level_text": "PARTIAL (known finding C09-sort-uint64-family): the theorems hold for every sorting rule whose attribute has a case in Less's type switch; uint64, *uint64 and *[]byte have none on this tree, the exclusion is the explicit hypothesis RulesHaveCases, the full statement is kept as C09_statement and refuted by C09_statement_false from a concrete witness that the harness replays. Proved, unbounded: Less = the lexicographic rule order of the specification (C09_less_spec), it is a strict weak order on the collection (C09_less_strict_weak), and for every sorting function meeting sort.Sort's contract (structure Sorter + locality) Range returns exactly the page [number*size,(number+1)*size) of one sorted permutation of the matching resources, the same for every page geometry (C09_range, with the filter clause discharged by C10_eval in C09_range_filtered); with id among the rules that permutation is unique, hence independent of the initial order and of the sorting algorithm (C09_unique_with_id_range); consecutive pages partition it (C09_partition). Page arithmetic is modelled on 64-bit machine integers (wrap-around of uint multiplication, int conversion).",
+        "level_note": "Trusted: Lean kernel; standard axioms; mirror of range.go (Range, Less) validated by correspondence on all three collection implementations, soft and wrapped resources, every kind; sort.Sort is parametric (any Sorter that returns a permutation, sorted when the comparator is a strict weak order on the elements, and only consults Less on distinct elements). 'Input collection unchanged' and 'non-nil result' are checked on the real code by the harness (the model is functional).",
+        "assumptions": ["sort.Sort meets the Sorter contract (permutation; sorted under a strict weak order; only compares distinct elements)",
+                        "IDs in the collection are unique, ids has no repeats, number*size < 2^63 (the property's domain)"],
+    },
     "C10": {
         "theorems": ["C10_eval", "C10_evalAll", "C10_evalAny", "C10_complement", "C10_trichotomy", "C10_le_ge", "C10_nil",
                      "C10_nil_right", "C10_unordered_bool", "C10_unordered_ids", "C10_unknown_op", "C10_impl_independent"],
